@@ -19,6 +19,9 @@ CONSTANTS P,          \* segment payload size in bytes (1188 in the library)
           MaxTicks,   \* bound on clock ticks
           MaxBad,     \* bound on malformed datagrams
           MaxSegIdx,  \* 65535 in the library
+          SlotWrap,   \* TRUE = the receiver computes the number of slots in the width of the header field: (max + 1) mod (MaxSegIdx + 1),
+                      \* as coded at the pinned commit (uint16 arithmetic): a message of MaxSegIdx + 1 segments - which the sender accepts -
+                      \* gets no slot at all and is never handed up; FALSE = max + 1 (repaired)
           GenCanon    \* script generation: losses only directly after the send (canonical order)
 
 MsgsOf(st) == 1..Len(st.lens)
@@ -49,9 +52,16 @@ Deliver(st, d) ==
         ent0 == IF isNew THEN [cnt |-> 0, filled |-> {}, max |-> MaxIdx(st.lens[m]), exp |-> 0]
                 ELSE st.table[m]
         ent1 == [ent0 EXCEPT !.cnt = @ + 1, !.filled = @ \cup {idx}, !.exp = st.now + Expiry]
-        complete == ent1.cnt = ent1.max + 1
+        slots == IF SlotWrap THEN (ent0.max + 1) % (MaxSegIdx + 1) ELSE ent0.max + 1
+        fits == idx < slots                   \* add(): an index beyond the slots is ignored (the entry's expiry is refreshed all the same)
+        complete == fits /\ ent1.cnt = slots
         net2 == st.net \ {d}
-    IN IF complete
+    IN IF ~fits
+       THEN [st EXCEPT !.net = net2,
+                       !.tdom = @ \cup {m},
+                       !.table = [x \in (st.tdom \cup {m}) |-> IF x = m THEN [ent0 EXCEPT !.exp = st.now + Expiry] ELSE st.table[x]],
+                       !.last = "partial"]
+       ELSE IF complete
        THEN [st EXCEPT !.net = net2,
                        !.tdom = @ \ {m},
                        !.table = [x \in (st.tdom \ {m}) |-> st.table[x]],
